@@ -1,7 +1,7 @@
 #!/bin/bash
 # tools/selftest.sh [Cxx ...] : for each property (default: all in tools/ready.txt) run every mutant
 # /verif/mutants/Cxx-*.diff through its quick check and require a VIOLATION (exit 1); report a table.
-cd "$(dirname "$0")/.."
+cd "$(dirname "$0")/.."; export VERIF_DIR="$PWD"
 ids="$@"; [ -z "$ids" ] && ids=$(grep -v '^#' tools/ready.txt)
 fail=0
 for id in $ids; do
